@@ -297,6 +297,38 @@ for key in sorted(raw):
                                                    impl=repr(got), expected=repr(exp)))
             if via == "gateway":
                 gw.reconfigure()  # back to the defaults
+        # callbacks: the channel's CURRENT configuration governs what a callback receives, whether reconfigure()
+        # came before or after setcallback(); a callback whose channel object was dropped keeps the configuration
+        # it had when it was registered
+        import time
+        for order in ("reconfigure-then-setcallback", "setcallback-then-reconfigure", "setcallback-drop"):
+            for a in (False, True):
+                for b in (False, True):
+                    ch = gw.remote_exec("channel.receive()\n" + src)
+                    got = []
+                    if order == "reconfigure-then-setcallback":
+                        ch.reconfigure(py2str_as_py3str=a, py3str_as_py2str=b)
+                        ch.setcallback(got.append, endmarker="<end>")
+                    elif order == "setcallback-then-reconfigure":
+                        ch.setcallback(got.append, endmarker="<end>")
+                        ch.reconfigure(py2str_as_py3str=a, py3str_as_py2str=b)
+                    else:
+                        ch.reconfigure(py2str_as_py3str=a, py3str_as_py2str=b)
+                        ch.setcallback(got.append, endmarker="<end>")
+                    ch.send("go")
+                    ch.send(raw)
+                    if order == "setcallback-drop":
+                        del ch
+                    t0 = time.time()
+                    while (not got or got[-1] != "<end>") and time.time() - t0 < 10:
+                        time.sleep(0.01)
+                    exp = {"M": "a\xe9" if a else b"a\xe9", "N": b"a\xc3\xa9" if b else "a\xe9", "S": "a\xe9", "G": 7, "I": 12}
+                    exp = [exp[k] for k in sorted(exp)] + ["<end>"]
+                    res.count(("plumbing-callback", order, a, b))
+                    if [pyval.canon(x) for x in got] != [pyval.canon(x) for x in exp]:
+                        res.violations.append(dict(case={"via": "callback", "order": order, "flags": [a, b], "origin": "reconfigure"},
+                                                   what="a channel callback did not receive strings coerced by the channel's configuration (%s)" % order,
+                                                   impl=repr(got), expected=repr(exp)))
     finally:
         group.terminate(timeout=2.0)
 
